@@ -53,3 +53,20 @@ pub fn convert_properties(m: &PropMap) -> (r: OPropMap)
 pub fn required_names(s: &NameSet) -> (r: Vec<String>)
     ensures r@.len() == names_of(*s).len(), forall|i: int| 0 <= i < r@.len() ==> (#[trigger] r@[i])@ == names_of(*s)[i]
 { unimplemented!() }
+
+/// W1: the enumeration chain of j2oas_string
+pub open spec fn string_values_only(e: Option<Vec<Value>>) -> bool {
+    e is Some ==> forall|i: int| 0 <= i < e->Some_0@.len() ==> (#[trigger] e->Some_0@[i]) is Null || e->Some_0@[i] is String
+}
+pub open spec fn enum_entry(v: Value) -> Option<Seq<char>> { match v { Value::String(s) => Some(s@), _ => None } }
+#[verifier::external_body]
+pub fn string_enumeration(enum_values: &Option<Vec<Value>>) -> (r: Vec<Option<String>>)
+    requires string_values_only(*enum_values)
+    ensures
+        *enum_values is None ==> r@.len() == 0,
+        *enum_values is Some ==> r@.len() == enum_values->Some_0@.len()
+            && forall|i: int| 0 <= i < r@.len() ==> (match #[trigger] r@[i] { Some(s) => Some(s@), None => None::<Seq<char>> }) == enum_entry(enum_values->Some_0@[i]),
+{ unimplemented!() }
+/// A11: a str is determined by its characters
+pub axiom fn ax_str_ext(a: &str, b: &str)
+    ensures a@ == b@ ==> a == b;
